@@ -699,7 +699,9 @@ def fs_trace_profile_write(ctx):
             return a[0] == path or dir_of(a[0]) == dir_of(path) and dir_of(path) is not None
         return d == dir_of(path) and d is not None
 
-    def scenario(exists_flag):
+    mgr = repo.cls(MGR, "ConfigManager")
+
+    def scenario(exists_flag, entry="data"):
         def run(cell, domains):
             log = []
 
@@ -717,32 +719,42 @@ def fs_trace_profile_write(ctx):
                 if leaf in ("exists", "isdir"):
                     itp.emit("CALL", "exists", list(args), None)
                     return ("c", exists_flag)
+                if leaf == "isfile" and len(args) == 1 and args[0][0] == "c":
+                    # the profile has been saved before: its configuration file is there (and nothing else)
+                    return ("c", exists_flag and args[0] == TARGET)
                 strs = [a for a in args if a[0] == "c" and isinstance(a[1], str)]
                 if leaf in ("join", "dirname", "basename", "normpath", "abspath", "split", "splitext") and strs and len(strs) == len(args) and not kwargs \
                         and e is not None and "path" in unparse(e.func):
                     r_ = getattr(posixpath, leaf)(*[a[1] for a in strs])
                     return ("c", r_)
                 return None
-            it = Interp(repo, cell, domains, hooks={"builtin:open": open_, "fn:getStorageForProfile": storage, "extcall": extcall})
+            it = Interp(repo, cell, domains, hooks={"builtin:open": open_, "fn:getStorageForProfile": storage, "extcall": extcall,
+                                                    "fn:config_to_str": lambda itp, fn_, owner_, sv_, a_, k_: VAL})
             raised = None
             try:
-                it.call_function(wpd, st, None, [PROFILE, NAME, VAL], {}, depth=0)
+                if entry == "save":
+                    # the whole way: ConfigManager.save(profile, config) with the serialised text standing for itself
+                    o = it.construct(mgr, [], {}, {"@module": mgr.module, "@owner": None}, 0, None)
+                    it.effects[:] = []
+                    it.method_call(o, "save", [PROFILE, ("ext", "CONFIG", [])], {}, {"@module": mgr.module, "@owner": mgr}, 0, None)
+                else:
+                    it.call_function(wpd, st, None, [PROFILE, NAME, VAL], {}, depth=0)
             except _Raise as r:
                 raised = r.text
             return {"effects": list(flat_effects(it.effects)), "raised": raised}, it
         return enumerate_cells(run, {}, max_cells=64)
     bad_atomic, bad_dir, n_open, n_cells = set(), set(), 0, 0
-    for flag in (True, False):
+    for flag, entry in ((True, "data"), (False, "data"), (True, "save"), (False, "save")):
         try:
-            cells = scenario(flag)
+            cells = scenario(flag, entry)
         except (Budget, NeedAtom, DomainGrew) as x:
-            ctx.undecided("C19.atomic", w, "file-system trace of writeProfileData", "could not be executed: %s" % (x,))
+            ctx.undecided("C19.atomic", w, "file-system trace of %s" % ("writeProfileData" if entry == "data" else "ConfigManager.save"), "could not be executed: %s" % (x,))
             return
         for cell, r in cells:
             n_cells += 1
-            when = "directory %s" % ("exists" if flag else "does not exist")
+            when = "directory %s%s" % ("exists" if flag else "does not exist", ", through ConfigManager.save" if entry == "save" else "")
             if r["raised"]:
-                bad_atomic.add("writeProfileData raises %s [%s]" % (r["raised"][:60], when))
+                bad_atomic.add("%s raises %s [%s]" % ("writeProfileData" if entry == "data" else "save", r["raised"][:60], when))
                 continue
             events = []
             for e in r["effects"]:
